@@ -387,7 +387,20 @@ func runC20(c *Ctx) {
 						return true
 					}
 					if name := core.CalleeName(info, x); strings.HasPrefix(name, "strings.Builder.Write") {
-						bad = "write " + core.ExprString(x) + " at " + c.Pos(x) + " outside the loop over the token's bytes"
+						// one whole-token write is part of the codec: a special token (type CONTROL) is matched by
+						// Encode as raw text, so Decode writes its value as it stands (judged by C20-R12)
+						special := false
+						if len(x.Args) == 1 && len(core.CallsTo(info, x.Args[0], false, "model.Vocabulary.Decode")) == 1 {
+							gs := c.G(side.f)
+							for _, a := range gs.AtomsAt(gs.Locate(x)) {
+								if be, isB := ast.Unparen(a.Expr).(*ast.BinaryExpr); isB && mentionsIdentNamed(be, "TOKEN_TYPE_CONTROL") && ((be.Op == token.EQL && a.Val) || (be.Op == token.NEQ && !a.Val)) {
+									special = true
+								}
+							}
+						}
+						if !special {
+							bad = "write " + core.ExprString(x) + " at " + c.Pos(x) + " outside the loop over the token's bytes"
+						}
 					}
 					return true
 				})
@@ -917,4 +930,15 @@ func guardedIDList(c *Ctx, f *core.Func, o types.Object, info *types.Info) bool 
 func isSliceOf(t types.Type, elem string) bool {
 	sl, ok := t.Underlying().(*types.Slice)
 	return ok && core.ObjNameOfType(sl.Elem()) == elem
+}
+
+func mentionsIdentNamed(n ast.Node, name string) bool {
+	found := false
+	ast.Inspect(n, func(m ast.Node) bool {
+		if id, ok := m.(*ast.Ident); ok && id.Name == name {
+			found = true
+		}
+		return !found
+	})
+	return found
 }
